@@ -17,6 +17,7 @@ const T_LIT: u32 = 4;
 const T_BIGLIT: u32 = 5;
 const T_RANGE: u32 = 6;
 const T_CHAIN: u32 = 7;
+const T_REF: u32 = 8;
 
 const AR: [&str; 5] = ["+", "-", "*", "/", "%"];
 const CMP: [&str; 6] = ["<", "<=", ">", ">=", "==", "!="];
@@ -153,7 +154,7 @@ impl Check for C06 {
 
     fn run(&self, ctx: &mut Ctx) -> Result<(), MachineryError> {
         let g = grid(ctx.tier);
-        ctx.rule = "complete product over the boundary grid G: every ordered pair (a,b) x {+ - * / %} x 6 forms (expression, op-assign on variable / list element / property (two spellings), x = x op b), 6 comparisons, the identity (a/b)*b + a%b == a, every `_` placement (<=2) of every non-negative grid literal with and without `-`, too-large literals, ranges a .. a+d for d in [-2,6]; non-trivial = every case (all are distinct tuples); distinct = distinct (reference outcome, diagnostic shape)".to_string();
+        ctx.rule = "complete product over the boundary grid G: every ordered pair (a,b) x {+ - * / %} x 6 forms (expression, op-assign on variable / list element / property (two spellings), x = x op b), 6 comparisons, the identity (a/b)*b + a%b == a, every `_` placement (<=2) of every non-negative grid literal with and without `-`, too-large literals, ranges a .. a+d for d in [-2,6], every descending pair as a range, ranges iterated directly / evaluated again after the first result changed / spread, op-assignment on a variable shadowing another one, three-operand chains; non-trivial = every case (all are distinct tuples); distinct = distinct (reference outcome, diagnostic shape)".to_string();
         let mut total_pairs = 0u64;
         let mut overflow_cells = 0u64;
         for chunk in g.chunks(8) {
@@ -279,6 +280,30 @@ impl Check for C06 {
                 ));
             }
         }
+        // uses of a range: iterated directly, twice with a change to the first result in between,
+        // as a spread; and x op= y on a variable that shadows another one -- judged against the
+        // reference interpreter (which is held to exact arithmetic by the cases above)
+        let edge: Vec<i64> = vec![i64::MIN, i64::MIN + 1, -3, -1, 0, 1, 2, i64::MAX - 2, i64::MAX - 1, i64::MAX];
+        for &a in &edge {
+            for &b in &edge {
+                if (b as i128) - (a as i128) > 6 {
+                    continue;
+                }
+                let (la, lb) = (lit(a), lit(b));
+                cases.push(Case::new(format!("n := 0\nfor e in {} .. {} {{\nn += 1\nprint(e)\n}}\nprint(n)\n", la, lb), T_REF, format!("for over the range literal {} .. {}", a, b)));
+                cases.push(Case::new(format!("a := {}\nb := {}\nn := 0\nfor [i, v] in a .. b {{\nn += v\n}}\nprint(n)\n", la, lb), T_REF, format!("for over the range {} .. {} of variables", a, b)));
+                cases.push(Case::new(format!("a := {}\nb := {}\nr1 := a .. b\nr1 += [7]\nr1[0] = 99\nr2 := a .. b\nprint(r2)\nprint(r1)\nprint([(a .. b).., 5])\n", la, lb), T_REF, format!("the range {} .. {} evaluated again after its first result changed", a, b)));
+                cases.push(Case::new(format!("a := {}\nb := {}\nr1 := a .. b\nfor [i, v] in r1 {{\nr1[i] = 0\n}}\nprint(a .. b)\n", la, lb), T_REF, format!("the range {} .. {} evaluated again after its elements were overwritten", a, b)));
+            }
+        }
+        for &a in &edge {
+            for &b in &edge {
+                for op in AR {
+                    cases.push(Case::new(format!("x := 7\nb := {}\n{{\nx := {}\nx {}= b\nprint(x)\n}}\nprint(x)\n", lit(b), lit(a), op), T_REF, format!("{} {}= {} on a block variable shadowing another", a, op, b)));
+                    cases.push(Case::new(format!("x := 7\nb := {}\nfn f() {{\nx := {}\nx {}= b\nprint(x)\nreturn fn () {{\nx {}= 1\nreturn x\n}}\n}}\nprint(f()())\nprint(x)\n", lit(b), lit(a), op, op), T_REF, format!("{} {}= {} on a function variable shadowing a global", a, op, b)));
+                }
+            }
+        }
         ctx.judge(cases, |c, r, o| self.oracle(c, r, o))?;
         ctx.guard("some operation overflowed and some did not", overflow_cells > 0 && overflow_cells < total_pairs * 5);
         ctx.extra.insert(
@@ -289,7 +314,13 @@ impl Check for C06 {
         Ok(())
     }
 
-    fn oracle(&self, c: &Case, _r: &RefOutcome, o: &Outcome) -> Verdict {
+    fn oracle(&self, c: &Case, r: &RefOutcome, o: &Outcome) -> Verdict {
+        if c.tag == T_REF {
+            if o.stdout != r.stdout || r.is_ok() != (o.class == Class::Ok) {
+                return viol("range-or-op-assign", format!("{}: printed {:?} ({:?}), reference {:?}", c.meta, o.out_str(), o.class, String::from_utf8_lossy(&r.stdout)));
+            }
+            return Verdict::Pass;
+        }
         let p: Vec<&str> = c.meta.split(' ').collect();
         match c.tag {
             T_ARITH => {
